@@ -20,34 +20,34 @@ Proof. cbn [emb]. apply f_equal. induction l as [|y r IH]; cbn [map]; [reflexivi
 Lemma nth_error_map_emb (l : list (nd A)) n : nth_error (map emb l) n = option_map emb (nth_error l n).
 Proof. revert n; induction l as [|a l IH]; intros [|n]; cbn; auto. Qed.
 
-(* the loop of dataAt for any body that behaves like  data = data.([]any)[i]  *)
+(* the loop of dataAt (at main level: l = []) for any body that behaves like  data = data.([]any)[i]  *)
 Lemma dataAt_loop (body : St -> denv -> denv -> @doutcome A St)
       (assign : denv -> denv -> Z -> @dval A -> denv * denv) :
-  (forall s g l k i (x : nd A),
-      vlookup g l "data" = Some (emb x) ->
-      let '(g0, l0) := assign g l k (DI (Z.of_nat i)) in
+  (forall s g k i (x : nd A),
+      vlookup g [] "data" = Some (emb x) ->
+      let '(g0, l0) := assign g [] k (DI (Z.of_nat i)) in
       match dataAt x [i] with
-      | Some y => exists g1 l1, body s g0 l0 = DNormal St s g1 l1 /\ vlookup g1 l1 "data" = Some (emb y)
+      | Some y => exists g1, body s g0 l0 = DNormal St s g1 [] /\ vlookup g1 [] "data" = Some (emb y)
       | None => body s g0 l0 = DPanic St
       end) ->
-  forall (idx : list nat) (x : nd A) k s g l,
-  vlookup g l "data" = Some (emb x) ->
+  forall (idx : list nat) (x : nd A) k s g,
+  vlookup g [] "data" = Some (emb x) ->
   match dataAt x idx with
-  | Some y => exists g1 l1, drangeLoop St body assign (map (fun n => DI (Z.of_nat n)) idx) k s g l = DNormal St s g1 l1 /\
-                            vlookup g1 l1 "data" = Some (emb y)
-  | None => drangeLoop St body assign (map (fun n => DI (Z.of_nat n)) idx) k s g l = DPanic St
+  | Some y => exists g1, drangeLoop St body assign (map (fun n => DI (Z.of_nat n)) idx) k s g [] = DNormal St s g1 [] /\
+                         vlookup g1 [] "data" = Some (emb y)
+  | None => drangeLoop St body assign (map (fun n => DI (Z.of_nat n)) idx) k s g [] = DPanic St
   end.
 Proof.
-  intros Hb. induction idx as [|i idx IH]; intros x k s g l Hd.
+  intros Hb. induction idx as [|i idx IH]; intros x k s g Hd.
   - cbn. eauto.
   - cbn [map drangeLoop].
-    pose proof (Hb s g l k i x Hd) as H1.
-    destruct (assign g l k (DI (Z.of_nat i))) as [g0 l0].
+    pose proof (Hb s g k i x Hd) as H1.
+    destruct (assign g [] k (DI (Z.of_nat i))) as [g0 l0].
     cbn [dataAt] in H1 |- *.
     destruct x as [a|rows]; cbn [asV obind] in H1 |- *.
     + rewrite H1. reflexivity.
     + destruct (nth_error rows i) as [r|] eqn:En; cbn [obind] in H1 |- *.
-      * cbn [dataAt] in H1. destruct H1 as [g1 [l1 [Hb1 Hd1]]]. rewrite Hb1.
+      * cbn [dataAt] in H1. destruct H1 as [g1 [Hb1 Hd1]]. rewrite Hb1.
         apply IH. exact Hd1.
       * rewrite H1. reflexivity.
 Qed.
@@ -66,24 +66,21 @@ Proof.
     pose proof (dataAt_loop b asg) as HL
   end.
   match type of HL with ?P -> _ => assert (Hspec : P) end.
-  { intros s0 g l k i y Hd. dxs.
-    pose proof (vlookup_vassign true g l "_" "data" (DI k)) as H1.
-    destruct (vassign true g l "_" (DI k)) as [g1 l1].
-    pose proof (vlookup_vassign true g1 l1 "i" "data" (DI (Z.of_nat i))) as H2.
-    pose proof (vlookup_vassign true g1 l1 "i" "i" (DI (Z.of_nat i))) as H3.
-    destruct (vassign true g1 l1 "i" (DI (Z.of_nat i))) as [g2 l2].
-    cbn [String.eqb Ascii.eqb Bool.eqb] in H1, H2, H3.
-    dxs. unfold vlookup in *. 
+  { intros s0 g k i y Hd. cbv beta iota.
+    (* the two range variables are new variables of the main frame: [dxs] has computed [vdefine true] to [dupd] *)
+    unfold vlookup in Hd. cbn [dlookup] in Hd.
+    autorewrite with dataexec. cbn [deval]. unfold vlookup. cbn [dlookup].
+    rewrite !dlookup_dupd. cbn [String.eqb Ascii.eqb Bool.eqb]. rewrite Hd.
     cbn [dataAt]. destruct y as [a|rows]; cbn [asV obind].
-    - rewrite H2, H1, Hd. cbn [emb]. reflexivity.
-    - rewrite H2, H1, Hd, emb_Vec, H3, didx_nat, nth_error_map_emb.
+    - cbn [emb]. reflexivity.
+    - rewrite emb_Vec, didx_nat, nth_error_map_emb.
       destruct (nth_error rows i) as [r|]; cbn [option_map obind dataAt]; [|reflexivity].
-      pose proof (vlookup_vassign true g2 l2 "data" "data" (emb r)) as H4.
-      destruct (vassign true g2 l2 "data" (emb r)) as [g3 l3].
-      cbn [String.eqb Ascii.eqb Bool.eqb] in H4. exists g3, l3. split; [reflexivity | exact H4]. }
-  specialize (HL Hspec idx x 0 s [("t.dims", ds); ("t.data", emb x); ("index", DL (map (fun n => DI (Z.of_nat n)) idx)); ("data", emb x)] [] eq_refl).
+      (* data = ... assigns the existing main variable *)
+      unfold vassign. cbn [dhas dlookup]. unfold dhas. rewrite !dlookup_dupd. cbn [String.eqb Ascii.eqb Bool.eqb]. rewrite Hd.
+      eexists. split; [reflexivity|]. cbn [dlookup]. rewrite dlookup_dupd. cbn [String.eqb Ascii.eqb Bool.eqb]. reflexivity. }
+  specialize (HL Hspec idx x 0 s [("t.dims", ds); ("t.data", emb x); ("index", DL (map (fun n => DI (Z.of_nat n)) idx)); ("data", emb x)] eq_refl).
   destruct (dataAt x idx) as [y|].
-  - destruct HL as [g1 [l1 [HL Hd]]]. rewrite HL. dxs. unfold vlookup in Hd |- *. rewrite Hd. eauto.
+  - destruct HL as [g1 [HL Hd]]. rewrite HL. dxs. unfold vlookup in Hd |- *. cbn [dlookup] in Hd |- *. rewrite Hd. eauto.
   - rewrite HL. reflexivity.
 Qed.
 End DataAt.
